@@ -578,7 +578,7 @@ Qed.
 
 Lemma same_shape_rt p t : same_shape t (reingold_tilford p t) = true.
 Proof.
-  unfold reingold_tilford, third, first_pass.
+  unfold reingold_tilford, rt_gen, third, first_pass.
   match goal with |- context [Qeq_bool ?a 0] => destruct (Qeq_bool a 0) end.
   - apply same_shape_second.
   - rewrite same_shape_cshift. apply same_shape_second.
@@ -1654,7 +1654,7 @@ Qed.
 (* one call = the fresh layout of the current shape, whatever annotations the nodes carry *)
 Lemma layout_fresh p d : snd (layout p d) = reingold_tilford p (tree_of_d d).
 Proof.
-  unfold layout, reingold_tilford, first_pass, first_pass_d. cbn [snd].
+  unfold layout, reingold_tilford, rt_gen, first_pass, first_pass_d. cbn [snd].
   rewrite fpd_reset, dheight_tree. reflexivity.
 Qed.
 
@@ -1673,7 +1673,7 @@ Proof.
 Qed.
 
 Lemma rt_strip p t : reingold_tilford p (tree_of_d (zero_d t)) = reingold_tilford p t.
-Proof. unfold reingold_tilford, first_pass. rewrite fp_strip, height_strip. reflexivity. Qed.
+Proof. unfold reingold_tilford, rt_gen, first_pass. rewrite fp_strip, height_strip. reflexivity. Qed.
 
 (* a call leaves the structure alone *)
 Lemma tree_of_reset : forall d, tree_of_d (reset_d d) = tree_of_d d.
@@ -1721,3 +1721,46 @@ Lemma relayout_is_fresh st steps e p :
   snd (run_steps st (steps ++ [(e, p)]))
   = reingold_tilford p (tree_of_d (apply_edit e (fst (run_steps st steps)))).
 Proof. rewrite run_steps_app. cbn [run_steps]. apply layout_fresh. Qed.
+
+(* =============================================================================================
+   A start node that is not the root (first child of its parent): the same three passes with the
+   whole tree's max_depth and the node's absolute depth; the four clauses do not depend on them *)
+Lemma rtg_but_cousins eps p maxd depth t : 0 <= eps -> params_pos p ->
+  prop_C19_but_cousins eps p t (rt_gen p maxd depth t) = true.
+Proof.
+  intros He [Hss [Hsts Hls]].
+  assert (HL : Forall (fun n => Mid n /\ (0 <= p_ss p -> Sib (p_ss p) n)) (cpre (rt_gen p maxd depth t))).
+  { unfold rt_gen. apply third_local, second_local, first_pass_wf. }
+  assert (H0 : same_shape t (rt_gen p maxd depth t) = true).
+  { unfold rt_gen, third, first_pass.
+    match goal with |- context [Qeq_bool ?a 0] => destruct (Qeq_bool a 0) end.
+    - apply same_shape_second.
+    - rewrite same_shape_cshift. apply same_shape_second. }
+  assert (H1 : levels_ok eps (p_ls p) (rt_gen p maxd depth t) = true).
+  { apply levels_ok_of_P; [exact He|exact Hls|]. unfold rt_gen. apply levelsP_third, levelsP_second. }
+  assert (H2 : midpoint_ok eps (rt_gen p maxd depth t) = true).
+  { unfold midpoint_ok. apply forallb_forall. intros n Hn. rewrite Forall_forall in HL.
+    destruct (HL n Hn) as [HMid _]. unfold Mid in HMid. destruct (ckids n) as [|f l]; [reflexivity|].
+    apply eq_eps_true; [exact He|exact HMid]. }
+  assert (H3 : siblings_ok eps (p_ss p) (rt_gen p maxd depth t) = true).
+  { unfold siblings_ok. apply forallb_forall. intros n Hn. rewrite Forall_forall in HL.
+    destruct (HL n Hn) as [_ HS]. specialize (HS (Qlt_le_weak _ _ Hss)). unfold Sib in HS.
+    eapply ordpairs_true; [|exact HS]. intros a b Hab. cbn beta in Hab. apply leq_eps_true; assumption. }
+  assert (H4 : nonneg_ok eps (rt_gen p maxd depth t) = true).
+  { unfold nonneg_ok. apply forallb_forall. intros n Hn.
+    assert (HN : Forall (fun n => 0 <= cx n) (cpre (rt_gen p maxd depth t))).
+    { unfold rt_gen. apply third_nonneg.
+      eapply Forall_impl; [|apply second_local, first_pass_wf]. intros a [H _]. exact H. }
+    rewrite Forall_forall in HN. apply leq_eps_true; [exact He|apply HN, Hn]. }
+  unfold prop_C19_but_cousins. rewrite H0, H1, H2, H3, H4. reflexivity.
+Qed.
+
+Lemma rt_at_but_cousins eps p whole path sub c : 0 <= eps -> params_pos p ->
+  subtree_at whole path = Some sub -> rt_at p whole path = Some c ->
+  prop_C19_but_cousins eps p sub c = true.
+Proof.
+  intros He Hp Hs Hc. unfold rt_at in Hc. destruct path as [|i path'].
+  - cbn in Hs. injection Hs as <-. injection Hc as <-. apply rtg_but_cousins; assumption.
+  - destruct (Nat.eqb (last (i :: path') 1%nat) 0); [|discriminate].
+    rewrite Hs in Hc. injection Hc as <-. apply rtg_but_cousins; assumption.
+Qed.
